@@ -316,8 +316,44 @@ def _len_str(x):
     if isinstance(x, int):
         return str(x)
     if isinstance(x, tuple) and x and x[0] == 'fn':
-        return re.sub(r'\s+', '', x[1])
+        tab = _len_table(x[1])
+        return tab if tab is not None else re.sub(r'\s+', '', x[1])
     return '?'
+
+
+def _len_table(text):
+    """A length that is a pure arithmetic function of the length of one earlier string field (ctx.<field>) is written as its value
+    table over lengths 0..11 -- '@filename:3,2,1,0,3,2,...' -- so that any spelling of the same function compares equal and a
+    different function does not.  Evaluated by the analyser's own restricted evaluator (arithmetic, len, ctx.<name> only)."""
+    import ast as _ast
+    try:
+        e = _ast.parse(text.strip(), mode='eval').body
+    except SyntaxError:
+        return None
+    fields = set()
+    for n in _ast.walk(e):
+        if isinstance(n, _ast.Attribute) and isinstance(n.value, _ast.Name) and n.value.id == 'ctx':
+            fields.add(n.attr)
+        elif isinstance(n, _ast.Subscript) and isinstance(n.value, _ast.Name) and n.value.id == 'ctx' and isinstance(n.slice, _ast.Constant):
+            fields.add(n.slice.value)
+        elif isinstance(n, _ast.Call):
+            if not (isinstance(n.func, _ast.Name) and n.func.id == 'len' and len(n.args) == 1):
+                return None
+        elif not isinstance(n, (_ast.BinOp, _ast.UnaryOp, _ast.Constant, _ast.Name, _ast.Load, _ast.operator, _ast.unaryop, _ast.Expression)):
+            return None
+    if len(fields) != 1 or not any(isinstance(n, _ast.Call) for n in _ast.walk(e)):
+        return None         # counts read straight from an integer field (array lengths) stay symbolic
+    fld = list(fields)[0]
+
+    class C(dict):
+        __getattr__ = dict.__getitem__
+    vals = []
+    for n in range(12):
+        try:
+            vals.append(str(eval(compile(_ast.Expression(body=e), '<len>', 'eval'), {'__builtins__': {}, 'len': len}, {'ctx': C({fld: 'x' * n})})))
+        except Exception:
+            return None
+    return '@%s:%s' % (fld, ','.join(vals))
 
 
 def find_fields(ir, acc=None):
